@@ -279,29 +279,39 @@ func (lm *levelManager) flushToL0(kvs []types.Entry) error {
 	lm.levels[0].PushBack(th)
 
 	// file name format: level-idx.db
-	fd, err := os.OpenFile(lm.fileName(0, th.levelIdx), os.O_CREATE|os.O_RDWR|os.O_TRUNC, 0600)
+	return lm.writeTable(0, th.levelIdx, tableBytes)
+}
+
+// writeTable stores a table under its final name only once it is complete and
+// durable: the bytes are written to a temporary file and synced before the
+// file is renamed, so that a crash never leaves an empty or partial table
+// where recovery would read it.
+func (lm *levelManager) writeTable(level, idx int, tableBytes []byte) error {
+	name := lm.fileName(level, idx)
+	tmp := name + ".tmp"
+
+	fd, err := os.OpenFile(tmp, os.O_CREATE|os.O_RDWR|os.O_TRUNC, 0600)
 	if err != nil {
 		return err
 	}
-	defer func() {
-		if err = fd.Close(); err != nil {
-			lm.logger.Errorf("failed to close file: %v", err)
-		}
-	}()
 
 	// write sstable
-	_, err = fd.Write(tableBytes)
-	if err != nil {
+	if _, err = fd.Write(tableBytes); err != nil {
+		_ = fd.Close()
 		return err
 	}
 
 	// os sync
 	if err = fd.Sync(); err != nil {
-		lm.logger.Errorf("failed to sync file: %v", err)
+		_ = fd.Close()
 		return err
 	}
 
-	return nil
+	if err = fd.Close(); err != nil {
+		return err
+	}
+
+	return os.Rename(tmp, name)
 }
 
 func (lm *levelManager) checkAndCompact() {
@@ -428,6 +438,11 @@ func (lm *levelManager) compactL0() {
 		lm.levels[1].Remove(e)
 	}
 
+	// write new sstable before the tables it replaces are deleted
+	if err := lm.writeTable(1, th.levelIdx, tableBytes); err != nil {
+		lm.logger.Panicf("failed to write sstable: %v", err)
+	}
+
 	// delete old sstables from L0
 	for _, e := range l0Tables {
 		if err := os.Remove(lm.fileName(0, e.Value.(tableHandle).levelIdx)); err != nil {
@@ -439,22 +454,6 @@ func (lm *levelManager) compactL0() {
 		if err := os.Remove(lm.fileName(1, e.Value.(tableHandle).levelIdx)); err != nil {
 			lm.logger.Panicf("failed to delete old sstable: %v", err)
 		}
-	}
-
-	// write new sstable
-	fd, err := os.OpenFile(lm.fileName(1, th.levelIdx), os.O_CREATE|os.O_RDWR|os.O_TRUNC, 0600)
-	if err != nil {
-		lm.logger.Panicf("failed to open sstable: %v", err)
-	}
-	defer func() {
-		if err = fd.Close(); err != nil {
-			lm.logger.Errorf("failed to close file: %v", err)
-		}
-	}()
-
-	_, err = fd.Write(tableBytes)
-	if err != nil {
-		lm.logger.Panicf("failed to write sstable: %v", err)
 	}
 }
 
@@ -513,6 +512,11 @@ func (lm *levelManager) compactLN(n int) {
 		lm.levels[n+1].Remove(e)
 	}
 
+	// write new sstable before the tables it replaces are deleted
+	if err := lm.writeTable(n+1, th.levelIdx, tableBytes); err != nil {
+		lm.logger.Panicf("failed to write sstable: %v", err)
+	}
+
 	// delete old sstables from LN
 	if err := os.Remove(lm.fileName(n, lnTable.Value.(tableHandle).levelIdx)); err != nil {
 		lm.logger.Panicf("failed to delete old sstable: %v", err)
@@ -522,22 +526,6 @@ func (lm *levelManager) compactLN(n int) {
 		if err := os.Remove(lm.fileName(n+1, e.Value.(tableHandle).levelIdx)); err != nil {
 			lm.logger.Panicf("failed to delete old sstable: %v", err)
 		}
-	}
-
-	// write new sstable
-	fd, err := os.OpenFile(lm.fileName(n+1, th.levelIdx), os.O_CREATE|os.O_RDWR|os.O_TRUNC, 0600)
-	if err != nil {
-		lm.logger.Panicf("failed to open sstable: %v", err)
-	}
-	defer func() {
-		if err = fd.Close(); err != nil {
-			lm.logger.Errorf("failed to close file: %v", err)
-		}
-	}()
-
-	_, err = fd.Write(tableBytes)
-	if err != nil {
-		lm.logger.Panicf("failed to write sstable: %v", err)
 	}
 }
 
